@@ -107,13 +107,19 @@ theorem exec_wakes_nil (w : Switches) (q : Quirks) (st : State) (now c : Nat) (r
           · exact h
           · exact processWakes_wakes q now _
 
-theorem run_wakes_nil (w : Switches) (q : Quirks) (evs : List Ev) : ∀ (st : State), st.wakes = [] → (run w q st evs).wakes = [] := by
+theorem stepEv_wakes_nil (w : Switches) (q : Quirks) (st : State) (e : Dbs.Ev) (h : st.wakes = []) : (stepEv w q st e).wakes = [] := by
+  cases e with
+  | req now c r => exact exec_wakes_nil w q st now c r h
+  | timeout c => simp only [stepEv, timeoutConn]; split <;> exact h
+  | close c => simp only [stepEv, closeConn]; split <;> exact h
+
+theorem run_wakes_nil (w : Switches) (q : Quirks) (evs : List Dbs.Ev) : ∀ (st : State), st.wakes = [] → (run w q st evs).wakes = [] := by
   induction evs with
   | nil => intro st h; exact h
   | cons e rest ih =>
     intro st h
     simp only [run, List.foldl_cons]
-    exact ih _ (exec_wakes_nil w q st e.now e.conn e.req h)
+    exact ih _ (stepEv_wakes_nil w q st e h)
 
 /-! ### The code variant is the Spec on every request outside the three deviations -/
 
